@@ -394,7 +394,8 @@ def main():
                       "attributes (the classes themselves do not build under the pinned Keras 3: known finding); tolerance 2e-4 relative "
                       "(rsqrt vs sqrt/divide, summation order)",
                       "unfold_model / convert_to_folded_model need the Keras-2 graph helper (known finding); their algebra is the unfold theorem"]
-  return rep.finish(vlib.TRUSTED_COMMON + ["model BN/Fold.v is hand-written; tie = comparison with the unbound call on every generated case"])
+  return rep.finish(vlib.TRUSTED_COMMON + ["translator tools/translate/foldgen.py regenerates coq/gen/FoldGen.v (get_folded_weights of both folded classes); Link/FoldLink.v proves it equal to BN/Fold.v; the call bodies and the graph conversion are tied by correspondence",
+                                          "model BN/Fold.v is hand-written; tie = comparison with the unbound call on every generated case"])
 
 
 if __name__ == "__main__":
